@@ -405,17 +405,24 @@ def run(rep, ctx):
     funcs = [f for f in F.funcs if not f.is_dependent() and f.cfg is not None]
     rep.note_funcs(funcs)
 
-    rule_X1(rep, funcs)
-    rule_A1(rep, funcs, F)
-    rule_P1(rep, funcs)
-    rule_D1(rep, funcs)
-    rule_K1(rep, funcs)
-    rule_M1(rep, funcs)
-    rule_P2(rep, funcs)
-    rule_R1(rep, funcs)
-    rule_H1(rep, repo)
-    rule_H2(rep, repo)
-    rule_K2(rep, repo)
+    broken = []
+    for fn_, args_ in ((rule_X1, (rep, funcs)), (rule_A1, (rep, funcs, F)), (rule_P1, (rep, funcs)), (rule_D1, (rep, funcs)), (rule_K1, (rep, funcs)), (rule_M1, (rep, funcs)),
+                       (rule_P2, (rep, funcs)), (rule_R1, (rep, funcs)), (rule_H1, (rep, repo)), (rule_H2, (rep, repo)), (rule_K2, (rep, repo)), (rule_L1, (rep, funcs))):
+        try:
+            fn_(*args_)
+        except AnalysisBroken as ab:
+            broken.append(str(ab))
+    if broken:
+        known = set()
+        try:
+            from ..evidence import load_known
+            known = {k["key"] for k in load_known() if k.get("status") == "known"}
+        except Exception:
+            pass
+        failing = [1 for rl in rep.rules for i in rl.instances if not i["ok"] and rl.full_key(i) not in known]
+        if not failing:
+            raise AnalysisBroken("; ".join(broken))
+        rep.extra["analysis_incomplete"] = broken
     return rep
 
 
@@ -1590,3 +1597,90 @@ def rule_K2(rep, repo):
         k2.check(okn, "negate|%s|kind %d" % (body, kind), short_loc(f.loc), "a comparison with a negative leading coefficient is replaced by the negated body with sense %d" % -kind)
     if n < 8:
         raise AnalysisBroken("C01.K2: only %d conditional comparison preprocessors" % n)
+
+
+# ---------------------------------------------------------------------------------------------------
+# L1 linearisation forms of the simple converters (abstract interpretation, mpsa/conlit.py)
+# ---------------------------------------------------------------------------------------------------
+L1_FUNCS = [
+    (r"mp::AndConverter_MIP::ConvertCtx(Pos|Neg)", None), (r"mp::OrConverter_MIP::ConvertCtx(Pos|Neg)", None), (r"mp::AbsConverter_MIP::ConvertCtx(Pos|Neg)", None),
+    (r"mp::MinOrMaxConverter_MIP::ConvertCtx(Pos|Neg)", r"(Min|Max)ConstraintId"), (r"mp::NotConverter_MIP::Convert", None), (r"mp::IfThenElseConverter_MIP::Convert", None),
+    (r"mp::DivConverter_MIP::Convert", None), (r"mp::NumberofConstConverter_MIP::Convert", None), (r"mp::NumberofVarConverter_MIP::Convert", None),
+    (r"mp::CountConverter_MIP::Convert", None), (r"mp::AllDiffConverter_MIP::ConvertCtxPos", None), (r"mp::RangeConstraintConverter::Convert", r"(LinTerms|QuadAndLinTerms)>::Convert"),
+    (r"mp::ImplicationConverter_MIP::Convert", None), (r"mp::ComplementarityConverter_MIP::Convert", r"(LinTerms|QuadAndLinTerms)>>>::Convert"),
+    (r"mp::IndicatorQuadConverter_MIP::Convert", r", (-?[01])>::Convert"),
+]
+
+
+def l1_forms(funcs):
+    from ..conlit import Interp, Unsupported
+    byfull = {}
+    for f in funcs:
+        byfull.setdefault(f.full, f)
+    out = {}
+    for f in sorted(funcs, key=lambda g: g.full):
+        for pat, inst in L1_FUNCS:
+            if not re.fullmatch(pat, f.qn):
+                continue
+            tag = ""
+            if inst:
+                m = re.search(inst, f.full)
+                if not m:
+                    continue
+                tag = "<" + m.group(1) + ">"
+            key = f.qn.replace("mp::", "") + tag
+            try:
+                em = Interp(f, byfull).run()
+            except Unsupported as u:
+                out[key] = (f, None, str(u))
+                continue
+            forms = []
+            for conds, each, dsc in em:
+                forms.append("%s%s %s" % ("EACH " if each else "", "[" + " & ".join(("" if p else "!") + "(" + t + ")" for t, p in conds) + "]" if conds else "[]", canon_form(dsc)))
+            out[key] = (f, sorted(forms), None)
+    rel = [g for g in funcs if g.qn == "mp::RangeConstraintConverter::Relate"]
+    for g in rel[:1]:
+        r = [x for x in g.walk() if x["k"] == "ReturnStmt"]
+        out["RangeConstraintConverter::Relate"] = (g, [nt(render(kids(r[0])[0])) if len(r) == 1 else "?"], None)
+    return out
+
+
+def canon_form(d):
+    """printable canonical form of a descriptor: terms of fully literal linear bodies are sorted by variable"""
+    if isinstance(d, tuple) and d and d[0] == "lin" and len(d) == 3:
+        cf, vs = d[1], d[2]
+        if all(s[0] == "one" for s in cf) and all(s[0] == "one" for s in vs) and len(cf) == len(vs):
+            terms = sorted(zip([s[2] for s in vs], [s[2] for s in cf]))
+            return "lin{" + " ".join("%s*%s" % (c, v) for v, c in terms) + "}"
+        return "lin{coefs=%s vars=%s}" % (canon_seq(cf), canon_seq(vs))
+    if isinstance(d, tuple):
+        return "(" + ", ".join(canon_form(x) for x in d) + ")"
+    if isinstance(d, dict):
+        from ..conlit import aff_txt
+        return aff_txt(d)
+    return str(d)
+
+
+def canon_seq(segs):
+    return "[" + ", ".join(("%s x %s" % (s[1], s[2])) if s[0] == "rep" else str(s[2]) for s in segs) + "]"
+
+
+def rule_L1(rep, funcs):
+    import json
+    import os
+    l1 = rep.rule("C01.L1", "TABLE", "the constraints each simple converter adds (abstract interpretation over symbolic argument lists) are the reviewed linearisation of its operator", floor=25)
+    refp = os.path.join(os.path.dirname(__file__), "C01_forms.json")
+    ref = json.load(open(refp))
+    got = l1_forms(funcs)
+    for key, want in sorted(ref["forms"].items()):
+        if key not in got:
+            raise AnalysisBroken("C01.L1: converter %s not found" % key)
+        f, forms, err = got[key]
+        if forms is None:
+            raise AnalysisBroken("C01.L1: %s left the analysable fragment: %s" % (key, err))
+        if any("?" in x for x in forms) and forms != want["forms"]:
+            raise AnalysisBroken("C01.L1: %s builds a constraint through a construct the analysis does not model: %s" % (key, [x for x in forms if "?" in x][:1]))
+        missing = [x for x in want["forms"] if x not in forms]
+        extra = [x for x in forms if x not in want["forms"]]
+        l1.check(not missing and not extra, key, short_loc(f.loc), "%s: %s" % (key, want["reading"]),
+                 "%s no longer builds the reviewed linearisation (%s). Expected but absent: %s.  Built instead: %s" % (key, want["reading"], missing[:2], extra[:2]))
